@@ -41,3 +41,27 @@ class FindInterleavedCandidates:
                     for i in range(len(candidates)) for j in range(len(candidates)) if i < j)
                 for group in result),
     }
+
+
+AREA_ONLY = Rec("Protocluster", label="ProtoclusterExtent", location=OneOf(FL, CL(2, 2)))
+
+
+@contract(f"{FILE}::_find_neighbouring_protoclusters", props=["C05"])
+class FindNeighbouringProtoclusters:
+    """Protoclusters are paired as neighbours exactly when their full extents share a base (up to 3 protoclusters)."""
+    params = {"protoclusters": ListOf(AREA_ONLY, 0, 3)}
+
+    def requires(protoclusters):
+        return all(wf(p.location) for p in protoclusters)
+
+    ensures = {
+        "every-pair-with-overlapping-extents-is-grouped": lambda protoclusters, result:
+            all(implies(share_bases(protoclusters[i].location, protoclusters[j].location),
+                        any(protoclusters[i] in group and protoclusters[j] in group for group in result))
+                for i in range(len(protoclusters)) for j in range(len(protoclusters)) if i < j),
+        "every-group-is-a-pair-with-overlapping-extents": lambda protoclusters, result:
+            all(any(share_bases(protoclusters[i].location, protoclusters[j].location)
+                    and protoclusters[i] in group and protoclusters[j] in group and len(group) == 2
+                    for i in range(len(protoclusters)) for j in range(len(protoclusters)) if i < j)
+                for group in result),
+    }
